@@ -32,8 +32,8 @@ def ctor_table():
     """[(name in testtools.matchers.__all__, [factory, ...])]: every stock matcher with the legal shapes of the constructor
     arguments that its __str__ / the describe() of its mismatches interpolate (tuple of length 0/1/2, list, set, frozenset,
     str vs bytes, None, non-ASCII text ...).  APPEND ONLY: (row, variant) indices are part of recorded inputs.
-    Not listed on purpose, because /repo is known to fail on them (reported): dict matchers / KeysEqual with keys that
-    are not mutually orderable, MatchesRegex(<compiled pattern>), StartsWith/EndsWith(<tuple containing a newline>)."""
+    Not listed on purpose (argument types that are not documented, see `assumptions`): MatchesRegex(<compiled pattern>),
+    StartsWith/EndsWith(<tuple containing a newline>), DocTestMatches(<bytes>)."""
     import doctest, re
     import testtools.matchers as M
     P = C6.Scratch.get().path
@@ -59,7 +59,8 @@ def ctor_table():
         ('Always', [lambda: M.Always()]),
         ('Never', [lambda: M.Never()]),
         ('KeysEqual', [lambda: M.KeysEqual(), lambda: M.KeysEqual('a'), lambda: M.KeysEqual('a', 'b'), lambda: M.KeysEqual({'a': 1, 'b': 2}),
-                       lambda: M.KeysEqual((1, 2), (3,)), lambda: M.KeysEqual(1, 2), lambda: M.KeysEqual('caf\xe9')]),
+                       lambda: M.KeysEqual((1, 2), (3,)), lambda: M.KeysEqual(1, 2), lambda: M.KeysEqual('caf\xe9'),
+                       lambda: M.KeysEqual(1, 'a'), lambda: M.KeysEqual(None, 'a'), lambda: M.KeysEqual((1, 2), 'a', b'k', None, 1)]),
         ('MatchesAll', [lambda: M.MatchesAll(), lambda: M.MatchesAll(M.Equals((1, 2)), M.Never()),
                         lambda: M.MatchesAll(M.Never(), M.Equals(()), first_only=True)]),
         ('MatchesAny', [lambda: M.MatchesAny(), lambda: M.MatchesAny(M.Equals((1,)), M.Never())]),
@@ -74,9 +75,12 @@ def ctor_table():
         ('MatchesSetwise', [lambda: M.MatchesSetwise(), lambda: M.MatchesSetwise(M.Equals(1), M.Equals((1, 2))), lambda: M.MatchesSetwise(M.Never(), M.Never())]),
         ('MatchesStructure', [lambda: M.MatchesStructure(), lambda: M.MatchesStructure(args=M.Equals((1,))), lambda: M.MatchesStructure.byEquality(a=(1, 2), b='x'),
                               lambda: M.MatchesStructure.fromExample(Example, 'a', 'b'), lambda: M.MatchesStructure(a=M.Never(), b=M.Never()).update(b=None)]),
-        ('MatchesDict', [lambda: M.MatchesDict({}), lambda: M.MatchesDict({'a': M.Equals((1, 2)), 'caf\xe9': M.Never()}), lambda: M.MatchesDict({1: M.Never(), 2: M.Equals(())})]),
-        ('ContainsDict', [lambda: M.ContainsDict({}), lambda: M.ContainsDict({'a': M.Equals((1, 2)), 'z': M.Never()}), lambda: M.ContainsDict({(1, 2): M.Never()})]),
-        ('ContainedByDict', [lambda: M.ContainedByDict({}), lambda: M.ContainedByDict({'a': M.Never()}), lambda: M.ContainedByDict({b'k': M.Equals(1)})]),
+        ('MatchesDict', [lambda: M.MatchesDict({}), lambda: M.MatchesDict({'a': M.Equals((1, 2)), 'caf\xe9': M.Never()}), lambda: M.MatchesDict({1: M.Never(), 2: M.Equals(())}),
+                         lambda: M.MatchesDict({1: M.Never(), 'a': M.Equals(2)}), lambda: M.MatchesDict({None: M.Never(), 'a': M.Never(), (1, 2): M.Never(), b'k': M.Never()})]),
+        ('ContainsDict', [lambda: M.ContainsDict({}), lambda: M.ContainsDict({'a': M.Equals((1, 2)), 'z': M.Never()}), lambda: M.ContainsDict({(1, 2): M.Never()}),
+                          lambda: M.ContainsDict({1: M.Equals(1), 'a': M.Equals(2), None: M.Never()})]),
+        ('ContainedByDict', [lambda: M.ContainedByDict({}), lambda: M.ContainedByDict({'a': M.Never()}), lambda: M.ContainedByDict({b'k': M.Equals(1)}),
+                             lambda: M.ContainedByDict({1: M.Never(), 'a': M.Never()})]),
         ('MatchesException', [lambda: M.MatchesException(ValueError), lambda: M.MatchesException((KeyError, ValueError)), lambda: M.MatchesException(()),
                               lambda: M.MatchesException(ValueError(1)), lambda: M.MatchesException(ValueError((1, 2), 'x')), lambda: M.MatchesException(ValueError()),
                               lambda: M.MatchesException(ValueError, '2'), lambda: M.MatchesException(Exception, M.MatchesStructure(args=M.Equals((3,))))]),
@@ -125,6 +129,9 @@ def ctor_matchees():
          ('fn', lambda: C6.Fn(ret=(1, 2))), ('fn', lambda: C6.Fn(ret=1)), ('fn', lambda: C6.Fn(ret=2)), ('fn', lambda: C6.Fn(exc=KeyError((1, 2))))]
     V += [('path', lambda i=i: S.path(i)) for i in range(len(S.paths))]
     V += [('tuple', lambda: (S.path(2), S.path(0))), ('bytes', lambda: S.path(2).encode()), ('dict', lambda: {1: 'x', 2: (3,)}), ('list', lambda: ['x', 'y'])]
+    # dicts whose keys cannot be ordered with each other
+    V += [('dict', lambda: {1: 'x', 'a': 'y'}), ('dict', lambda: {None: 0, 'a': 1, (1, 2): 2, b'k': 3}), ('dict', lambda: {1: 0, 'a': 0}),
+          ('dict', lambda: {'a': 2, 1: 1})]
     return V
 
 
@@ -161,6 +168,7 @@ class C07(Prop):
             'text contains a quote, backslash, newline or non-printable; assert = a mismatch with details or existing details')
     assumptions = [
         'repr(), pprint.pformat(), % and str.format on the values of the universe are assumed total (exercised, not proved)',
+        'constructor arguments of undocumented types are outside the alphabet: MatchesRegex(<compiled pattern>) fails to build its mismatch (pattern.decode), StartsWith/EndsWith(<tuple containing a newline>) fail in describe() (text_repr of a tuple), DocTestMatches(<bytes>) fails in the constructor',
         'describe() of the mismatches of opaque leaves (MatchesRegex, DocTestMatches, filesystem matchers, Warnings) is tested, not proved',
         'pyRepr / pyEval are models of CPython repr() and of string-literal evaluation, validated against repr / ast.literal_eval on every text_repr input; str.isprintable for code points >= 128 is an input of the model',
         'MatchesSetwise: messages naming left-over matchers are built inside match(); the model only accounts for them through the str() table',
